@@ -109,10 +109,16 @@ impl Kinematics for OPWKinematics {
                         let mut now = ik[s_idx];
                         let q5 = now[J5] * self.parameters.sign_corrections[J5] as f64
                             - self.parameters.offsets[J5];
+                        // Direction in which J4 and J6 are counted (they may be reversed independently)
+                        let mut dir4 = 1.0;
+                        let mut dir6 = 1.0;
                         if are_angles_close(q5, 0.) {
-                            // J5 = 0 singlularity, J4 and J6 rotate same direction
-                            s = previous[J4] + previous[J6];
-                            s_n = now[J4] + now[J6];
+                            // J5 = 0 singlularity, J4 and J6 rotate same direction. This holds
+                            // for the angles counted the same way, so the sign corrections apply.
+                            dir4 = self.parameters.sign_corrections[J4] as f64;
+                            dir6 = self.parameters.sign_corrections[J6] as f64;
+                            s = previous[J4] * dir4 + previous[J6] * dir6;
+                            s_n = now[J4] * dir4 + now[J6] * dir6;
                         } else {
                             // J5 = -180 or 180 singularity, even if the robot would need
                             // specific design to rotate J5 to this angle without self-colliding.
@@ -133,8 +139,8 @@ impl Kinematics for OPWKinematics {
                         }
                         let j_d = angle / 2.0;
 
-                        now[J4] = previous[J4] + j_d;
-                        now[J6] = previous[J6] + j_d;
+                        now[J4] = previous[J4] + j_d * dir4;
+                        now[J6] = previous[J6] + j_d * dir6;
 
                         // Check last time if the pose is ok
                         let check_pose = self.forward(&now);
